@@ -381,3 +381,44 @@ Proof.
     destruct (k_is_fragment_delimiter (ck t2)); [eapply IH; exact H|inversion H; reflexivity].
   - eapply IH; exact H.
 Qed.
+
+(* ------------------------------------------------------------------ alpha printed as the canonical decimal *)
+(* SPEC: the canonical decimal of n/100 (n < 100): no trailing zeros, no trailing dot *)
+Definition hundredths_text (n : N) : str :=
+  if n =? 0 then [c_0]
+  else if n mod 10 =? 0 then [c_0; c_dot; c_0 + n / 10]
+  else [c_0; c_dot; c_0 + n / 10; c_0 + n mod 10].
+
+Definition hundredths : list N := map N.of_nat (seq 0 100).
+Lemma hundredths_in n : n < 100 -> In n hundredths.
+Proof. intros H. unfold hundredths. apply in_map_iff. exists (N.to_nat n). split; [lia|]. apply in_seq. lia. Qed.
+
+(* complete sweep: every alpha of one or two digits (.d = d0 hundredths, .dd) *)
+Lemma frac_hundredths_sweep :
+  forallb (fun n => str_eqb (frac (mkDec false n 2) 8) (hundredths_text n) &&
+                    (negb (n mod 10 =? 0) || str_eqb (frac (mkDec false (n / 10) 1) 8) (hundredths_text n)))
+          hundredths = true.
+Proof. vm_compute. reflexivity. Qed.
+
+Lemma str_eqb_true_eq : forall a b, str_eqb a b = true -> a = b.
+Proof.
+  induction a as [|x a IH]; destruct b as [|y b]; cbn [str_eqb]; intros H; try discriminate; [reflexivity|].
+  apply andb_true_iff in H. destruct H as [H1 H2]. apply N.eqb_eq in H1. subst. f_equal. apply IH. exact H2.
+Qed.
+
+Lemma frac_hundredths n : n < 100 -> frac (mkDec false n 2) 8 = hundredths_text n.
+Proof.
+  intros H. pose proof frac_hundredths_sweep as S. rewrite forallb_forall in S.
+  specialize (S n (hundredths_in n H)). apply andb_true_iff in S. destruct S as [S _].
+  apply str_eqb_true_eq. exact S.
+Qed.
+
+Lemma frac_tenths d : d < 10 -> frac (mkDec false d 1) 8 = hundredths_text (10 * d).
+Proof.
+  intros H. pose proof frac_hundredths_sweep as S. rewrite forallb_forall in S.
+  assert (H10 : 10 * d < 100) by lia.
+  specialize (S (10 * d) (hundredths_in _ H10)). apply andb_true_iff in S. destruct S as [_ S].
+  replace ((10 * d) mod 10) with 0 in S by (rewrite N.mul_comm, N.mod_mul; lia).
+  replace ((10 * d) / 10) with d in S by (rewrite N.mul_comm, N.div_mul; lia).
+  cbn [N.eqb negb orb] in S. apply str_eqb_true_eq. exact S.
+Qed.
